@@ -110,6 +110,7 @@ type proxyDB struct {
 	// point reads on it instead of badger iterators (whose cost grows with every stale version in
 	// the in-memory memtable). Cross-checked against a real iteration (world.crossCheck) at the end.
 	keys map[string]trackedKey
+	version int // bumped on every write attempt / harness-side change of the database
 }
 
 type trackedKey struct{ prefix, key []byte }
@@ -149,6 +150,7 @@ func (p *proxyDB) step(kind string, prefix, key []byte, write bool) error {
 	p.calls = append(p.calls, dbCall{Kind: kind, Key: short(prefix, key), Write: write})
 	if write {
 		p.dirty = true
+		p.version++
 	}
 	if p.plan != nil && p.plan.K == i {
 		switch p.plan.Mode {
@@ -381,10 +383,17 @@ type world struct {
 	atts  []relAtt
 	blks  []relBlk
 	start uint64
+
+	dumpCache   [][2][]byte
+	dumpVersion int
 }
 
 // dump returns the stored signer data as sorted (key-without-network-prefix, value) pairs.
 func (w *world) dump() (out [][2][]byte) {
+	if w.dumpVersion == w.px.version && w.dumpCache != nil {
+		return w.dumpCache
+	}
+	defer func() { w.dumpCache, w.dumpVersion = out, w.px.version }()
 	ks := make([]string, 0, len(w.px.keys))
 	for k := range w.px.keys {
 		ks = append(ks, k)
@@ -439,6 +448,7 @@ var dbPrefix = []byte(string(netName) + "signer_data-")
 // reset brings the world to the initial state: empty DB, clock at start, a key manager freshly
 // constructed on it (which creates and stores the empty wallet, as a first boot does).
 func (w *world) reset(start uint64) {
+	w.px.version++
 	if len(w.px.keys) > 0 {
 		err := w.inner.Update(func(txn basedb.Txn) error {
 			for _, k := range w.px.keys {
@@ -537,6 +547,7 @@ func (w *world) restore(sn *snapshot) {
 	if err != nil {
 		ev.Fatal("restore: %v", err)
 	}
+	w.px.version++
 	w.px.keys = map[string]trackedKey{}
 	for _, kv := range sn.kvs {
 		w.px.keys[string(kv.t.prefix)+string(kv.t.key)] = kv.t
@@ -675,10 +686,12 @@ func (w *world) do(o op, out *outcome) {
 	case "del-att":
 		_ = w.inner.Delete([]byte(string(netName)+"signer_data-highest_att-"), shares[o.Sh].pk)
 		w.px.dirty = true
+		w.px.version++
 		out.Label = "del-att"
 	case "del-prop":
 		_ = w.inner.Delete([]byte(string(netName)+"signer_data-highest_prop-"), shares[o.Sh].pk)
 		w.px.dirty = true
+		w.px.version++
 		out.Label = "del-prop"
 	case "err-read":
 		w.px.errNext = true
@@ -752,7 +765,9 @@ func (w *world) signed(o op, out *outcome, err error, hasSig bool, record func()
 	}
 	injectedOnRecord := false
 	for _, i := range w.px.injected {
-		if i < len(w.px.calls) && protectionCall(w.px.calls[i], o.K) {
+		// only failed *reads* of the record count here ("cannot be read"); a signature released
+		// after a failed *write* of the mark is judged by what it leads to (the pairwise oracle)
+		if i < len(w.px.calls) && !w.px.calls[i].Write && protectionCall(w.px.calls[i], o.K) {
 			injectedOnRecord = true
 		}
 	}
@@ -760,9 +775,9 @@ func (w *world) signed(o op, out *outcome, err error, hasSig bool, record func()
 	case out.RefVerdict != "":
 		out.Viol, out.What = out.RefVerdict, fmt.Sprintf("%s released a signature that is slashable together with an earlier released one (%s)", o, out.RefVerdict)
 	case !out.RecordPresent:
-		out.Viol, out.What = "signed-with-record-missing", fmt.Sprintf("%s released a signature although the share had no protection record of that kind", o)
+		out.Viol, out.What = "signed-with-record-missing:"+o.K, fmt.Sprintf("%s released a signature although the share had no protection record of that kind", o)
 	case injectedOnRecord:
-		out.Viol, out.What = "signed-with-record-unreadable", fmt.Sprintf("%s released a signature although a storage call on the protection record failed", o)
+		out.Viol, out.What = "signed-with-record-unreadable:"+o.K, fmt.Sprintf("%s released a signature although reading the protection record failed", o)
 	}
 }
 
